@@ -169,6 +169,13 @@ def _run(ck, P, cfg):
         cur, p = a, a.parent
         while p is not None and p.k in ("ParenExpr", "ImplicitCastExpr"):
             cur, p = p, p.parent
+        if p is not None and p.k == "VarDecl":
+            # the result is kept in a local first: the leader test is the comparison of that local
+            uses = [u for u in f.walk() if u.k == "DeclRefExpr" and u.did == p.did and not X.is_write_target(u)]
+            if len(uses) == 1:
+                cur, p = uses[0], uses[0].parent
+                while p is not None and p.k in ("ParenExpr", "ImplicitCastExpr"):
+                    cur, p = p, p.parent
         k = None
         if p is not None and p.k == "UnaryOperator" and p.op == "!":
             k = 0
